@@ -129,7 +129,7 @@ func init() {
 		Name: "records", Weight: 1,
 		N: func(tier string, seed uint64) uint64 {
 			if tier == "thorough" {
-				return 6000000
+				return 11000000
 			}
 			return 400000
 		},
@@ -301,7 +301,7 @@ func init() {
 		Name: "embed", Weight: 1,
 		N: func(tier string, seed uint64) uint64 {
 			if tier == "thorough" {
-				return 3000000
+				return 10000000
 			}
 			return 250000
 		},
@@ -404,7 +404,7 @@ func init() {
 		Name: "byteorder", Weight: 1,
 		N: func(tier string, seed uint64) uint64 {
 			if tier == "thorough" {
-				return 3000000
+				return 12000000
 			}
 			return 250000
 		},
@@ -416,6 +416,10 @@ func init() {
 			o := opts
 			o.Foreign = 12
 			alt := gen.DrawAlt(c.L("gen:x"))
+			gen.DrawAltDegenerate(c.L("gen:y"), &alt)
+			if alt.ShortText != 0 {
+				c.Inc("probe:date/offset/sub-second texts short enough for the slot")
+			}
 			if alt != (gen.Alt{}) {
 				c.Inc("probe:alternative-encodings (LONG for SHORT, ISO x2, slot padding)")
 			}
